@@ -11,7 +11,7 @@ STEP_LIMIT = 1_500_000
 BOUNDS = {
     'quick': 'rule t($X) :- BODY followed by the fact t(z) (a later clause that a cut must exclude); BODY = every conjunction / disjunction / mixed shape of up to 3 goals over '
              '{p($X), q($X), r($X, $Y), $X = b, `!`, fail, q($Y)} containing at least one `!`; queried directly (t($X), t(b)) and through callers w($X, $Y) :- p($Y), t($X) '
-             '(a sibling goal before the call must keep backtracking) and v($X) :- t($X) ; $X = zz (the caller\'s alternative must survive); plus 400 four-goal bodies in which a disjunction stands next to a cut and a goal after the cut can fail, and 500 five-goal bodies with a test between a 2- or 3-alternative disjunction and the cut; up to 8 answers compared',
+             '(a sibling goal before the call must keep backtracking) and v($X) :- t($X) ; $X = zz (the caller\'s alternative must survive); plus 400 four-goal bodies in which a disjunction stands next to a cut and a goal after the cut can fail, and 500 five-goal bodies with a test between a 2- or 3-alternative disjunction and the cut; 225 bodies `L, [test,] !, K` whose left goal L is defined by rules only (single call, disjunction, recursion, conjunction, facts then a rule), so that its first answer comes out of a rule body with more answers; up to 8 answers compared',
     'thorough': 'adds n($X), $X < 3, member, a second cut-bearing clause and bodies of 4 goals in the flat conjunction shape',
 }
 OUTSIDE = 'cut inside not(...) and time(...); a cut inside a disjunction: three readings are accepted (DESIGN C02) and the evidence counts which one the engine follows'
@@ -58,6 +58,17 @@ def cases(tier, seed):
                 for b in (AND(OR(g, h), t, CUT, k), AND(OR(g, h, gc('n', X)), t, CUT, k)):
                     cl = [(C('t', X), b), (C('t', A('z')), None)]
                     out.append({'id': '%s [direct]|%d' % (P.ctext(cl[0]), len(out)), 'fam': 'direct', 'clauses': PC.jsonable(tuple(cl)), 'query': PC.jsonable(C('t', X))})
+    # goals to the left of the cut that are defined by rules (their first answer comes out of a rule body that has more answers), a test after the cut
+    lefts = [gc('via1', X), gc('via2', X), gc('via3', X), gc('via4', X), gc('d', X)]
+    after = [gb('equal', X, A('c')), gb('equal', X, A('b')), U(X, A('b')), gb('fail'), gc('p', X)]
+    for l in lefts:
+        for k in after:
+            for t0 in (None, gb('equal', X, A('b')), gc('q', X)):
+                b = AND(l, CUT, k) if t0 is None else AND(l, t0, CUT, k)
+                for nm, (extra, q) in callers.items():
+                    if nm == 'ground': continue
+                    cl = [(C('t', X), b), (C('t', A('z')), None)] + extra
+                    out.append({'id': '%s [%s]|%d' % (P.ctext(cl[0]), nm, len(out)), 'fam': nm, 'clauses': PC.jsonable(tuple(cl)), 'query': PC.jsonable(q)})
     if tier != 'quick':
         for gs in itertools.product(MENU, repeat=4):
             b = AND(*gs)
